@@ -13,21 +13,26 @@
 (*                                    returned: "yield" id / "none" / "pending"       *)
 (*   Return{parked,done}              what the executor knows after the call:         *)
 (*                                    parked = Pending and the waker was not woken    *)
-(* Publisher events                                                                   *)
-(*   PubReset, CreateStream{w}, Publish{w,ts}   ts = the pair inside the published bytes *)
+(* Publisher events (one per specification action; one poll of a `publish` future is  *)
+(* DrawTs, SignEncode, SendTry [, Return] resp. SendResume, Return)                   *)
+(*   PubReset{gcap}, CreateStream{w}, DrawTs{h,w}, SignEncode{h}, SendTry{h,waits},   *)
+(*   SendResume{h}, PubReturn{h}                                                      *)
+(*   Drain{ts,woke}   ts = the pair inside the bytes taken from the gossip channel,   *)
+(*                    woke = the waker of a parked publish fired                      *)
 EXTENDS Ephemeral, TLC, Json, IOUtils
 
 Rec == ndJsonDeserialize(IOEnv.TRACE)
 
 VARIABLE i
-tvars == <<cap, chan, sent, closed, registered, task, yielded, dropped, skipped, pts, published, i>>
+tvars == <<cap, chan, sent, closed, registered, task, skips, yielded, dropped, skipped,
+           pts, gcap, ppc, held, waitq, gq, drawn, published, i>>
 
 Ev == Rec[i]
 
 StepReset ==
     /\ Ev.ev = "Reset"
     /\ cap' = Ev.cap /\ chan' = <<>> /\ sent' = 0 /\ closed' = FALSE
-    /\ registered' = FALSE /\ task' = "runnable"
+    /\ registered' = FALSE /\ task' = "runnable" /\ skips' = 0
     /\ yielded' = <<>> /\ dropped' = {} /\ skipped' = {}
     /\ UNCHANGED pubvars
 
@@ -65,20 +70,22 @@ StepReturn ==
 
 StepPubReset ==
     /\ Ev.ev = "PubReset"
-    /\ pts' = NoTs /\ published' = <<>>
+    /\ pts' = NoTs /\ gcap' = Ev.gcap
+    /\ ppc' = [h \in Handles |-> "idle"] /\ held' = [h \in Handles |-> NoTs]
+    /\ waitq' = <<>> /\ gq' = <<>> /\ drawn' = <<>> /\ published' = <<>>
     /\ UNCHANGED subvars
 
-StepCreateStream ==
-    /\ Ev.ev = "CreateStream"
-    /\ CreateStream(Ev.w)
-    /\ UNCHANGED subvars
-
-StepPublish ==
-    /\ Ev.ev = "Publish"
-    /\ pts # NoTs
-    /\ pts' = Increment(pts, Ev.w)
-    /\ published' = Append(published, pts')
-    /\ pts' = Ev.ts                     \* the timestamp pair inside the bytes the publisher produced
+StepCreateStream == Ev.ev = "CreateStream" /\ CreateStream(Ev.w) /\ UNCHANGED subvars
+StepDrawTs       == Ev.ev = "DrawTs" /\ DrawTs(Ev.h, Ev.w) /\ UNCHANGED subvars
+StepSignEncode   == Ev.ev = "SignEncode" /\ SignEncode(Ev.h) /\ UNCHANGED subvars
+StepSendTry      == Ev.ev = "SendTry" /\ SendTry(Ev.h) /\ Ev.waits = ~Room /\ UNCHANGED subvars
+StepSendResume   == Ev.ev = "SendResume" /\ SendResume(Ev.h) /\ UNCHANGED subvars
+StepReturn2      == Ev.ev = "PubReturn" /\ Return(Ev.h) /\ UNCHANGED subvars
+StepDrain ==
+    /\ Ev.ev = "Drain"
+    /\ Drain
+    /\ gq[1].ts = Ev.ts               \* the timestamp pair inside the bytes the publisher produced
+    /\ Ev.woke = (waitq # <<>>)
     /\ UNCHANGED subvars
 
 TraceInit == Init /\ i = 1
@@ -86,7 +93,8 @@ TraceNext ==
     /\ i <= Len(Rec)
     /\ i' = i + 1
     /\ \/ StepReset \/ StepSend \/ StepClose \/ StepInnerSkip \/ StepInnerLast \/ StepReturn
-       \/ StepPubReset \/ StepCreateStream \/ StepPublish
+       \/ StepPubReset \/ StepCreateStream \/ StepDrawTs \/ StepSignEncode \/ StepSendTry
+       \/ StepSendResume \/ StepReturn2 \/ StepDrain
 TraceSpec == TraceInit /\ [][TraceNext]_tvars
 
 C17_NoLostWakeup == NoLostWakeup
@@ -96,6 +104,9 @@ C16_TamperedNeverYielded == TamperedNeverYielded
 C16_YieldedInOrder == YieldedInOrder
 C16_TimestampsStrictlyIncrease == TimestampsStrictlyIncrease
 C16_PublishedDistinct == PublishedDistinct
+C16_PerHandleInOrder == PerHandleInOrder
+C16_ClockIsLastDrawn == ClockIsLastDrawn
+C16_ClockNeverRegresses == [][pts # NoTs /\ pts' # NoTs => ~TLess(pts', pts)]_tvars
 
 TraceAccepted ==
     LET d == TLCGet("stats").diameter IN
